@@ -7,7 +7,7 @@ RULE = ('case = ps.run <window base> <medium image> <checksum address> <algorith
         '<aux buffer size, -1 = none> <read fault script> <write fault script> <ops>: a history of store / store_part(offset,n) / validate / fetch / '
         'fetch_part / reset / out-of-band alteration / store of an explicit image (pairs of different images with the SAME checksum under each algorithm) / re-placement of the instance and change of its auxiliary buffer in mid-life on a logging medium whose window extends 4 octets beyond the region on both sides.  Observation after every '
         'operation: access code, fetched octets, the whole medium image, "every access of this operation inside the current [checksum, checksum+size+data)", and for refused part accesses '
-        '"no medium access at all".  Grid: data sizes 1..N, placements {4, 7, 4096, 2^32-region-4, 2^32-region (last octet at 0xffffffff)}, three algorithms, buffer sizes -1, 0..N+1, every (offset, n) of part '
+        '"no medium access at all".  Grid: data sizes 1..N, placements {4, 7, 4096, 2^32-region-4, 2^32-region (last octet at 0xffffffff)}, initial values up to 0xffff for every algorithm and 0x10000 / 0x80000000 / 0xffffffff / ... for the 32-bit sum, three algorithms, buffer sizes -1, 0..N+1, every (offset, n) of part '
         'stores and fetches incl. arithmetic-overflow pairs (2^64-1, 2^63 ...), every single-octet alteration.  Non-trivial: at least one store.')
 TRUSTED_BASE = TB_COMMON + ['Model/Persist.v hand-written from src/persistent-storage.c; checksum algorithms are per-octet folds (trivial sum, CRC-16/ARC = C16 spec step, 32-bit sum) supplied to the C code by the harness']
 ASSUMPTIONS = ['the medium is an array of octets addressed by uint32; regions that wrap around 2^32 are not generated',
@@ -54,6 +54,14 @@ def gen(rng, tier):
                     ops += [(6, idx, x, 0), (2, 0, 0, 0), (6, idx, x, 0), (2, 0, 0, 0)]
                     ops += [(5, rng.randrange(256), 0, 0), (2, 0, 0, 0)]
                     yield case(rng, caddr, ckind, init, dsize, bs, [], [], ops)
+    # 32-bit checksums whose initial value does not fit 16 bits (every path must use the full width: one-shot and chunked)
+    for init in (0x10000, 0x80000000, 0xffffffff, 0x12345678, 0xffff0000):
+        for dsize in (1, 2, 5):
+            for bs in (-1, 0, 2, dsize):
+                off = rng.randrange(dsize); n = rng.randrange(0, dsize - off + 1)
+                ops = [(0, rng.randrange(256), 0, 0), (2, 0, 0, 0), (3, 0, 0, 0), (1, rng.randrange(256), off, n), (2, 0, 0, 0), (3, 0, 0, 0),
+                       (7, rng.randrange(2**64), 0, 0), (2, 0, 0, 0), (5, rng.randrange(256), 0, 0), (2, 0, 0, 0)]
+                yield case(rng, rng.choice([4, 4096]), 2, init, dsize, bs, [], [], ops)
     # regions whose last octet is 0xffffffff (address + size = 2^32: no wrap, but every 32-bit end computation wraps to 0)
     for dsize in sizes:
         for ckind in (0, 1, 2):
